@@ -249,12 +249,12 @@ theorem block_defect_run (o : Opts) (hstore : o.store = true) (hmfd : o.maxFrame
     (hnew : ∀ c ∈ denote o.dia o.normKey pre, codeIs o.norm (o.norm bc) c = false)
     (hpost : wfBlocks o post bseen2 = true)
     (hseen2 : ∀ c ∈ denote o.dia o.normKey pre ++ [pruneC (.mk bc fs' ls')], o.norm c.code ∈ bseen2)
-    (hstep : ∀ (rest : List TokSpec) (s1 : PS) (w1 : W) (f : Nat), w1.cif = denote o.dia o.normKey pre ++ [.mk bc [] []] →
-        minf ≤ f → blockFollow rest → Feeds o s1 (T ++ rest) →
+    (hstep : ∀ (s1 : PS) (w1 : W) (f : Nat), w1.cif = denote o.dia o.normKey pre ++ [.mk bc [] []] →
+        minf ≤ f → Feeds o s1 (T ++ (blocksToks post ++ [(.end_, [])])) →
         ∃ s2 r, elemsLoop o (f + need) s1 (some [o.norm bc]) true acceptAll w1
             = elemsLoop o f s2 (some [o.norm bc]) true acceptAll
                 { log := r :: w1.log, cif := denote o.dia o.normKey pre ++ [.mk bc fs' ls'] }
-          ∧ r.code = C ∧ Feeds o s2 rest)
+          ∧ r.code = C ∧ Feeds o s2 (blocksToks post ++ [(.end_, [])]))
     (hfuel : szBlocks pre + szBlocks post + pre.length + post.length + need + minf + 5 ≤ total)
     (hF : Feeds o s (blocksToks pre ++ ((.blockHead, bc) :: (T ++ (blocksToks post ++ [(.end_, [])]))))) :
     ∃ s' r, blocksLoop o total s acceptAll w
@@ -271,9 +271,8 @@ theorem block_defect_run (o : Opts) (hstore : o.store = true) (hmfd : o.maxFrame
     intro c hc; simp only [hw, List.nil_append] at hc; exact hnew c hc
   -- the body
   obtain ⟨f, hf⟩ : ∃ f, F + post.length = ((f + 1) + need) + 1 := ⟨F + post.length - need - 2, by omega⟩
-  obtain ⟨s2, r, h3, hrc, h4⟩ := hstep (blocksToks post ++ [(.end_, [])]) (consume s1')
-    { w with cif := (w.cif ++ denote o.dia o.normKey pre) ++ [.mk bc [] []] } (f + 1) (by simp [hw]) (by omega)
-    (blocks_rest_head post) hr
+  obtain ⟨s2, r, h3, hrc, h4⟩ := hstep (consume s1')
+    { w with cif := (w.cif ++ denote o.dia o.normKey pre) ++ [.mk bc [] []] } (f + 1) (by simp [hw]) (by omega) hr
   -- the end of the container
   obtain ⟨ty, tx, ts, hrest, hfol⟩ := blocks_rest_head post
   rw [hrest] at h4
@@ -322,12 +321,12 @@ theorem block_defect_chars (o : Opts) (hstore : o.store = true) (hmfd : o.maxFra
     (hpreB : wfBlocks o preB [] = true) (hcode : wfCode bc = true) (hnew : ∀ b ∈ preB, o.norm b.code ≠ o.norm bc)
     (hpostB : wfBlocks o postB bseen2 = true) (hb2 : ∀ b ∈ preB, o.norm b.code ∈ bseen2) (hb2' : o.norm bc ∈ bseen2)
     (hneed : need + minf ≤ 2 * T.length + 20)
-    (hstep : ∀ (rest : List TokSpec) (s1 : PS) (w1 : W) (f : Nat), w1.cif = denote o.dia o.normKey preB ++ [.mk bc [] []] →
-        minf ≤ f → blockFollow rest → Feeds o s1 (T ++ rest) →
+    (hstep : ∀ (s1 : PS) (w1 : W) (f : Nat), w1.cif = denote o.dia o.normKey preB ++ [.mk bc [] []] →
+        minf ≤ f → Feeds o s1 (T ++ (blocksToks postB ++ [(.end_, [])])) →
         ∃ s2 r, elemsLoop o (f + need) s1 (some [o.norm bc]) true acceptAll w1
             = elemsLoop o f s2 (some [o.norm bc]) true acceptAll
                 { log := r :: w1.log, cif := denote o.dia o.normKey preB ++ [.mk bc fs' ls'] }
-          ∧ r.code = C ∧ Feeds o s2 rest) :
+          ∧ r.code = C ∧ Feeds o s2 (blocksToks postB ++ [(.end_, [])])) :
     ∃ r, parse o acceptAll [] (renderChunks cs)
         = { rc := 0, log := [r],
             cif := denote o.dia o.normKey preB ++ pruneC (.mk bc fs' ls') :: denote o.dia o.normKey postB }
